@@ -65,6 +65,8 @@ type jobctlWorld struct {
 	decidedAtSync  string // non-empty: the strategy was already decided by what the running sync can see
 	failBias       bool   // kubelet terminations are mostly failures (retry-focused histories)
 	staleRecreate  bool   // E-FreshJobOnCreate left (known finding F19): two incarnations of one task name
+	lateFinish     bool   // a pod that is being deleted often still runs to completion before it goes away
+	kubeletDead    bool   // the kubelet never finishes terminating a deleted pod (node unreachable)
 	forceKind      *int   // scenarios: the next kubelet termination is of this kind (0 = Succeeded, 2 = Failed)
 }
 
@@ -684,8 +686,11 @@ func (w *jobctlWorld) monitorCall(c sim.Call) {
 		w.c.Count("jc.pod-delete")
 		if c.Force {
 			w.c.Count("jc.pod-force-delete")
-			p := w.apiPod(name) // already removed by force delete; judged from the call log instead
-			_ = p
+		}
+		w.monitorPodDelete(name, c.Force)
+	case c.Verb == "update" && c.Resource == "jobs" && c.Subresource == "status" && c.Result == "ok":
+		if sj, ok := c.Obj.(*execution.Job); ok {
+			w.monitorPendingMarkers(sj)
 		}
 	case c.Verb == "delete" && c.Resource == "jobs" && c.Result == "ok":
 		w.c.Count("jc.job-ttl-delete")
@@ -696,6 +701,91 @@ func (w *jobctlWorld) monitorCall(c sim.Call) {
 					w.c.Violate("C13", "ttl-not-early", "Job deleted by the controller (TTL) while its task %s is alive", p.Name)
 				}
 			}
+		}
+	}
+}
+
+// monitorPodDelete (C12): every pod delete the controller issues must be justified, at the instant
+// it is applied, by one of the reasons the property allows — and by none of them earlier than its
+// deadline.  Reasons are evaluated on the Job version the sync read and on the Pod as the sync
+// could see it (pod cache, else server); deadlines by the property's own sentence.
+func (w *jobctlWorld) monitorPodDelete(name string, force bool) {
+	cj := w.cachedJob
+	pod := w.apiPod(name) // the observer runs before the delete is applied
+	if cj == nil || pod == nil || cj.Spec.Template == nil {
+		return
+	}
+	if ref := metav1.GetControllerOf(pod); ref == nil || string(ref.UID) != w.uid {
+		return // a foreign object: judged by the C09 monitors
+	}
+	seen := pod
+	if o, ok := w.ctx.Sim().Pods().CacheGet(&corev1.Pod{ObjectMeta: metav1.ObjectMeta{Namespace: "ns", Name: name}}); ok {
+		seen = o.(*corev1.Pod)
+	}
+	now := w.clk.Now()
+	if force {
+		f := time.Duration(0)
+		if w.cfg != nil && w.cfg.ForceDeleteTaskTimeoutSeconds != nil {
+			f = time.Duration(*w.cfg.ForceDeleteTaskTimeoutSeconds) * time.Second
+		}
+		switch {
+		case cj.Spec.Template.ForbidTaskForceDeletion:
+			w.c.Violate("C12", "force-delete-gated", "task %s force-deleted although the Job forbids force deletion", name)
+		case f <= 0:
+			w.c.Violate("C12", "force-delete-gated", "task %s force-deleted although force deletion is disabled (timeout %v)", name, f)
+		case seen.DeletionTimestamp == nil:
+			w.c.Violate("C12", "force-delete-gated", "task %s force-deleted without a prior graceful deletion", name)
+		case seen.DeletionTimestamp.Add(f).After(now):
+			w.c.Violate("C12", "force-delete-gated", "task %s force-deleted at %d, before deletion %d + %v", name, now.Unix(), seen.DeletionTimestamp.Unix(), f)
+		}
+		return
+	}
+	_, adm := jobutil.GetAdmissionErrorMessage(cj)
+	killDue := cj.Spec.KillTimestamp != nil && !cj.Spec.KillTimestamp.Time.After(now)
+	if !(killDue || adm || cj.DeletionTimestamp != nil || w.decidedAtSync != "") {
+		// pending timeout, or a reason that arose inside this sync (admission error on another
+		// index, completion decided by a task adopted in this pass): the pending-timeout clause
+		// is judged exactly, on the marker the controller records (monitorPendingMarkers)
+		w.c.Count("jc.pod-delete.reason-inside-sync-or-pending")
+	}
+}
+
+// monitorPendingMarkers (C12): a task the controller records as reaped for exceeding the pending
+// timeout must really have been pending for the whole timeout (job value if >= 0, else controller
+// default; 0 disables), as far as the sync could see it.
+func (w *jobctlWorld) monitorPendingMarkers(submitted *execution.Job) {
+	cj := w.cachedJob
+	if cj == nil || cj.Spec.Template == nil {
+		return
+	}
+	had := map[string]bool{}
+	for _, r := range cj.Status.Tasks {
+		if r.DeletedStatus != nil && r.DeletedStatus.Reason == "PendingTimeout" {
+			had[r.Name] = true
+		}
+	}
+	var t *int64
+	if v := cj.Spec.Template.TaskPendingTimeoutSeconds; v != nil && *v >= 0 {
+		t = v
+	} else if w.cfg != nil {
+		t = w.cfg.DefaultPendingTimeoutSeconds
+	}
+	now := w.clk.Now()
+	for _, r := range submitted.Status.Tasks {
+		if r.DeletedStatus == nil || r.DeletedStatus.Reason != "PendingTimeout" || had[r.Name] {
+			continue
+		}
+		w.c.Count("jc.pending-timeout-reaped")
+		if t == nil || *t <= 0 {
+			w.c.Violate("C12", "pending-not-early", "task %s reaped for pending timeout although the timeout is disabled", r.Name)
+			continue
+		}
+		if dl := r.CreationTimestamp.Add(time.Duration(*t) * time.Second); dl.After(now) {
+			w.c.Violate("C12", "pending-not-early", "task %s reaped for pending timeout at %d, created %d, timeout %ds: deadline %d not reached",
+				r.Name, now.Unix(), r.CreationTimestamp.Unix(), *t, dl.Unix())
+		}
+		if !r.RunningTimestamp.IsZero() {
+			w.c.Violate("C12", "pending-not-early", "task %s reaped for pending timeout although it had started running", r.Name)
 		}
 	}
 }
@@ -815,6 +905,12 @@ func (w *jobctlWorld) monitorJobVersion() {
 		}
 		if !pr.FinishTimestamp.IsZero() && cr.FinishTimestamp.IsZero() {
 			w.c.Violate("C11", "timestamps-never-cleared", "finish timestamp of %s was cleared", name)
+		}
+		// C10/C11: the outcome recorded for a finished task is what the Job's result rests on; once a
+		// task is recorded succeeded it is never turned into a failure or a kill (nor the reverse)
+		if !pr.FinishTimestamp.IsZero() && (pr.Status.State == execution.TaskTerminated || pr.Status.State == execution.TaskDeletedFinalStateUnknown) &&
+			!cr.FinishTimestamp.IsZero() && cr.Status.Result != pr.Status.Result && !w.staleRecreate {
+			w.c.Violate("C10", "task-outcome-stable", "task %s was recorded finished as %s/%s and is now %s/%s", name, pr.Status.State, pr.Status.Result, cr.Status.State, cr.Status.Result)
 		}
 	}
 	// C09: the admission error is reserved for a task name occupied by an object that does not
@@ -951,6 +1047,11 @@ func jobctlCase(c *Ctx, rng *rand.Rand) {
 	mode := []int{0, 0, 1, 1, 2}[rng.Intn(5)]
 	c.Count(fmt.Sprintf("jc.mode.%d", mode))
 	w.failBias = mode == 1
+	w.kubeletDead = rng.Intn(7) == 0
+	w.lateFinish = rng.Intn(4) == 0
+	if w.kubeletDead {
+		c.Count("jc.kubelet-dead")
+	}
 	if rng.Intn(3) > 0 {
 		tmpl.MaxAttempts = i64p(int64(1 + rng.Intn(4)))
 	}
@@ -1167,6 +1268,12 @@ func (w *jobctlWorld) kubelet(p *corev1.Pod, action int) {
 	key := "ns/" + p.Name
 	now := metav1.NewTime(time.Unix(w.clk.Now().Unix(), 0))
 	act := ""
+	if w.kubeletDead && p.DeletionTimestamp != nil {
+		return // unreachable node: a deleted pod stays Terminating until it is force-deleted
+	}
+	if w.lateFinish && p.DeletionTimestamp != nil && action < 4 && podAlive(p) && w.rng.Intn(2) == 0 {
+		action = 4 // the container completes during the grace period; the object goes away later
+	}
 	switch {
 	case p.DeletionTimestamp != nil && action < 4:
 		// kubelet finishes terminating a deleted pod
@@ -1283,8 +1390,12 @@ func (w *jobctlWorld) settle(rounds int) {
 					w.kubelet(p, 0)
 				}
 			}
-			w.clk.Step(61 * time.Second)
-			w.c.Emit("jc.adv 61000000000", w.state())
+			d := 61 * time.Second
+			if w.kubeletDead {
+				d += jobutil.GetForceDeleteTimeout(w.cfg) // let the force-delete deadline of stuck pods pass
+			}
+			w.clk.Step(d)
+			w.c.Emit(fmt.Sprintf("jc.adv %d", int64(d)), w.state())
 		}
 	}
 	w.c.Count("jc.settle")
@@ -1330,6 +1441,31 @@ func (w *jobctlWorld) finalMonitors() {
 			w.c.Violate("C12", "kill-eventually", "kill timestamp passed, no task alive, but the Job is %s at quiescence", j.Status.Phase)
 		}
 	}
-	b, _ := json.Marshal(j.Status.Phase)
-	_ = b
+	// C12: a task that ignores deletion is force-deleted after the configured timeout (unless the
+	// Job forbids it); the sweep only runs for a started Job that is not itself being deleted
+	force := jobutil.GetForceDeleteTimeout(w.cfg)
+	forbid := j.Spec.Template != nil && j.Spec.Template.ForbidTaskForceDeletion
+	if force > 0 && !forbid && jobutil.IsStarted(j) && j.DeletionTimestamp == nil && !w.envelopeBroken {
+		for _, p := range w.ownedPods() {
+			if p.DeletionTimestamp != nil && p.DeletionTimestamp.Add(force).Before(w.clk.Now()) && listed[p.Name] {
+				w.c.Violate("C12", "force-delete-eventually", "task %s has been terminating since %d (force-delete timeout %v, clock %d) and was not force-deleted at quiescence",
+					p.Name, p.DeletionTimestamp.Unix(), force, w.clk.Now().Unix())
+			}
+		}
+	}
+	// C10: once the strategy is decided the Job does reach that result (tasks no longer needed are
+	// stopped: gracefully if the kubelet cooperates, else by force deletion when permitted)
+	w.cachedJob = j
+	if dec := w.oracleDecidedTruth(j); dec != "" && jobutil.IsStarted(j) && j.DeletionTimestamp == nil && !w.envelopeBroken &&
+		j.Status.Condition.Finished == nil && (!w.kubeletDead || (force > 0 && !forbid)) {
+		w.c.Violate("C10", "decided-then-reached", "completion is decided (%s) but the Job is %s at quiescence", dec, j.Status.Phase)
+	}
+}
+
+// oracleDecidedTruth: oracleDecided on the authoritative Job and the pods on the server.
+func (w *jobctlWorld) oracleDecidedTruth(j *execution.Job) string {
+	saved := w.cachedJob
+	defer func() { w.cachedJob = saved }()
+	w.cachedJob = j
+	return w.oracleDecided()
 }
